@@ -42,7 +42,8 @@ void dlaqgs(SuperMatrix *A, double *r, double *c, double rowcnd, double colcnd, 
 void sp_colorder(SuperMatrix *A, int_t *perm_c, superlumt_options_t *o, SuperMatrix *AC) { ++c_order; s_order = ++seq; AC->Store = vh_malloc(sizeof(NCPformat)); ((NCPformat *)AC->Store)->colbeg = 0; ((NCPformat *)AC->Store)->colend = 0; }
 void Destroy_CompCol_Permuted(SuperMatrix *A) { vh_free(A->Store); }
 void pdgstrf(superlumt_options_t *o, SuperMatrix *A, int_t *perm_r, SuperMatrix *L, SuperMatrix *U, Gstat_t *G, int_t *info)
-{ ++c_fact; s_fact = ++seq; fact_A = A; *info = fact_info; }
+{ static int lstore, ustore; ++c_fact; s_fact = ++seq; fact_A = A; *info = fact_info;
+  if (fact_info <= NN) { L->Store = &lstore; U->Store = &ustore; } /* factors exist unless the initial allocation failed */ }
 double dPivotGrowth(int_t ncols, SuperMatrix *A, int_t *perm_c, SuperMatrix *L, SuperMatrix *U) { ++c_growth; growth_ncols = ncols; return 0.5; }
 double dlangs(char *norm, SuperMatrix *A) { ++c_langs; langs_norm = *norm; langs_A = A; return 1.0; }
 void dgscon(char *norm, SuperMatrix *L, SuperMatrix *U, double anorm, double *rcond, int_t *info) { ++c_con; con_norm = *norm; *rcond = con_rcond; *info = 0; }
@@ -51,7 +52,8 @@ void dgstrs(trans_t trans, SuperMatrix *L, SuperMatrix *U, int_t *perm_r, int_t 
 void dgsrfs(trans_t trans, SuperMatrix *A, SuperMatrix *L, SuperMatrix *U, int_t *perm_r, int_t *perm_c, equed_t equed, double *R, double *C,
             SuperMatrix *B, SuperMatrix *X, double *ferr, double *berr, Gstat_t *G, int_t *info)
 { ++c_rfs; s_rfs = ++seq; rfs_trans = trans; rfs_A = A; rfs_equed = equed; *info = 0; }
-int_t superlu_dQuerySpace(int_t P, SuperMatrix *L, SuperMatrix *U, int_t w, superlu_memusage_t *mu) { ++c_query; return 0; }
+int_t superlu_dQuerySpace(int_t P, SuperMatrix *L, SuperMatrix *U, int_t w, superlu_memusage_t *mu)
+{ ++c_query; vh_assert(L->Store != 0 && U->Store != 0, "the factors are not inspected after a failed allocation"); return 0; }
 
 VH_MAIN
 {
@@ -109,7 +111,7 @@ VH_MAIN
     } else if (expect_fact && fact_info > NN) {
         vh_assert(info == fact_info, "allocation failure of the factorization is reported unchanged");
         vh_assert(c_solve == 0 && c_rfs == 0 && c_con == 0 && c_growth == 0, "nothing is computed from factors that do not exist");
-        vh_assert(c_query == 0, "the factors are not inspected after a failed allocation");
+        vh_assert(c_query == 0 || (L.Store != 0 && U.Store != 0), "the factors are not inspected after a failed allocation");
         for (i = 0; i < NN; ++i) vh_assert(xval[i] == -1.0, "X untouched");
     } else if (expect_fact && fact_info > 0) {
         vh_assert(info == fact_info, "singularity position is reported unchanged");
@@ -136,6 +138,7 @@ VH_MAIN
         vh_assert(live == 0, "temporary column-wise wrapper and the permuted copy are released");
     }
     for (i = 0; i < NN; ++i) vh_assert(R[i] == 2.0 && C[i] == 4.0, "scale vectors unchanged by the driver");
+    if (expect_fact && opt.lwork != -1 && fact_info <= NN) vh_assert(c_query == 1, "memory usage is reported whenever the factorization produced factors");
     VH_WITNESS();
     return 0;
 }
